@@ -153,3 +153,49 @@ Proof.
   destruct (read_all_fuel_sound (S (length s)) s ltac:(lia)) as [H1 H2].
   rewrite H1, H2. cbn [andb]. now apply list_eqb_N_eq.
 Qed.
+
+(* shape of what one call consumes: junk without delimiter, the delimiter, at most 999 more bytes *)
+Lemma read_one_shape s o rest : read_one s = (o, rest) -> o <> Broken ->
+  exists junk x, s = (junk ++ frame_start :: x) ++ rest /\ nostart junk /\ (length x <= 999)%nat.
+Proof.
+  unfold read_one. destruct (scan s) as [t|] eqn:Hs.
+  2:{ intros H Nb; injection H as <- <-. congruence. }
+  destruct (scan_spec _ _ Hs) as [junk [-> Hj]]. intros H _. revert H.
+  destruct (N.of_nat (length t) <? header_size - 1) eqn:H6.
+  { intros H; injection H as <- <-. exists junk, t. rewrite app_nil_r. repeat split; [exact Hj|].
+    unfold header_size in H6. lia. }
+  set (h := firstn 6 t). set (t1 := skipn 6 t).
+  assert (Et : t = h ++ t1) by (unfold h, t1; now rewrite firstn_skipn).
+  assert (Lh : length h = 6%nat).
+  { unfold h. rewrite firstn_length. unfold header_size in H6. lia. }
+  destruct ((max_frame_length <? hdr_len h) || (hdr_len h <? min_frame_length)) eqn:Hlen.
+  { intros H; injection H as <- <-. exists junk, h. rewrite Et, <- !app_assoc. cbn [app].
+    repeat split; [exact Hj|lia]. }
+  set (n := N.to_nat (hdr_len h - header_size)).
+  assert (Hn999 : (n <= 993)%nat) by (unfold n, max_frame_length, header_size in *; lia).
+  destruct (Nat.ltb (length t1) n) eqn:Hn.
+  { intros H; injection H as <- <-. exists junk, t. rewrite app_nil_r. repeat split; [exact Hj|].
+    rewrite Et, app_length, Lh. apply Nat.ltb_lt in Hn. lia. }
+  set (body := firstn n t1). set (rest' := skipn n t1).
+  assert (Et1 : t1 = body ++ rest') by (unfold body, rest'; now rewrite firstn_skipn).
+  assert (Lb : length body = n) by (unfold body; rewrite firstn_length; apply Nat.ltb_ge in Hn; lia).
+  assert (forall o', (o', rest') = (o, rest) ->
+     exists junk0 x, junk ++ frame_start :: t = (junk0 ++ frame_start :: x) ++ rest /\ nostart junk0 /\ (length x <= 999)%nat) as K.
+  { intros o' H; injection H as <- <-. exists junk, (h ++ body).
+    rewrite Et, Et1. rewrite <- !app_assoc. cbn [app]. rewrite <- !app_assoc.
+    repeat split; [exact Hj|]. rewrite app_length, Lh, Lb. lia. }
+  repeat match goal with |- (if ?b then _ else _) = _ -> _ => destruct b end; apply K.
+Qed.
+
+Lemma read_all_fuel_last fuel s : (length s < fuel)%nat ->
+  exists l c, read_all_fuel fuel s = l ++ [(c, Broken)].
+Proof.
+  revert s; induction fuel as [|k IH]; intros s Hf; [lia|].
+  cbn [read_all_fuel]. destruct (read_one s) as [o rest] eqn:R.
+  assert (o = Broken \/ o <> Broken) as [->|Nb] by (destruct o; (now left) || (right; discriminate)).
+  - exists [], s. reflexivity.
+  - pose proof (read_one_progress _ _ _ R Nb) as Hp.
+    destruct (IH rest ltac:(lia)) as [l [c E]].
+    exists ((consumed s rest, o) :: l), c.
+    destruct o; try (rewrite E; reflexivity). congruence.
+Qed.
